@@ -35,7 +35,7 @@ _name = st.text(alphabet=_NAMECH, min_size=1, max_size=12).filter(lambda s: s[0]
 _switches = st.sampled_from([["bin"], ["cas"], ["dsk"], ["bin", "cas"], ["bin", "dsk"], ["cas", "dsk"], ["bin", "cas", "dsk"]])
 _case = st.fixed_dictionaries(dict(
     prog=proggen.program, nam=st.one_of(_name, _name, st.none(), st.none()), cli_name=st.one_of(_name, _name, st.none()),
-    nam_pos=st.integers(0, 3), bulk=st.sampled_from([0, 0, 0, 300, 300, 3000, 9000]),
+    nam_pos=st.integers(0, 3), bulk=st.sampled_from([0, 0, 0, 300, 300, 3000, 9000]), org_first=st.sampled_from([None, None, None, 0x0E00, 0x7000]),
     target_len=st.one_of(st.none(), st.none(), st.sampled_from(EDGE_LENGTHS)), switches=_switches,
     end=st.sampled_from(["none", "plain", "label"])))
 
@@ -86,6 +86,9 @@ def build(case):
     elif bulk:
         stmts.append({"lab": "", "k": "rmb", "val": proggen.lit(bulk)})
         stmts.append({"lab": "", "k": "fcb", "vals": [proggen.lit(0xAA)]})
+    if case.get("org_first") is not None and prog["org"] is not None and prog["org"] != case["org_first"]:
+        # an earlier ORG that the program's own ORG overrides before any byte is emitted (a template default)
+        stmts.insert(0, {"lab": "", "k": "org", "addr": case["org_first"]})
     if case["nam"]:
         stmts.insert(min(case["nam_pos"], len(stmts)), {"lab": "", "k": "nam", "text": case["nam"]})
     first_label = next((s["lab"] for s in stmts if s.get("lab") and s["k"] in proggen.INSTR_KINDS), None)
@@ -111,7 +114,12 @@ def execute(case):
     if len(ref.image) == 0:
         return skip("program emits no bytes", labels=labels)
     image = ref.image
-    origin = ref.origin if ref.origin is not None else 0
+    # the origin is what the source says (the ORG in force when the first byte is emitted; 0 without ORG), confirmed
+    # by the listing address of the first statement that emits bytes - not what Program.origin reports
+    origin = case["prog"]["org"] if case["prog"]["org"] is not None else 0
+    first_row = next((r[0] for r in ref.rows if r[1] and r[0] is not None), None)
+    if first_row is not None and first_row != origin:
+        return skip("harness: first byte listed at ${:04X}, source origin ${:04X}".format(first_row, origin), labels=labels)
     expect_name = case["nam"] or case["cli_name"]
     if case["nam"]:
         labels.append("nam")
